@@ -88,6 +88,25 @@ class Site:
             return "assign", ""
         return "other", ""
 
+    def sinks(self):
+        """[(receiver expression, method name, call)] where the constructed instruction is handed to a fragment:
+        directly  <recv>.add(IC10(..)) , or through a local  v = IC10(..); <recv>.add_end(v)."""
+        ADD = ("add", "_add", "add_end", "add_else", "add_line", "insert", "append")
+        out = []
+        p = getattr(self.call, "parent", None)
+        if isinstance(p, ast.Call) and isinstance(p.func, ast.Attribute) and self.call in p.args and p.func.attr in ADD:
+            out.append((p.func.value, p.func.attr, p))
+            return out
+        st = p
+        while st is not None and not isinstance(st, ast.stmt):
+            st = getattr(st, "parent", None)
+        if isinstance(st, ast.Assign) and len(st.targets) == 1 and isinstance(st.targets[0], ast.Name) and self.fn is not None:
+            v = st.targets[0].id
+            for c in ast.walk(self.fn):
+                if isinstance(c, ast.Call) and isinstance(c.func, ast.Attribute) and c.func.attr in ADD and any(isinstance(a, ast.Name) and a.id == v for a in c.args):
+                    out.append((c.func.value, c.func.attr, c))
+        return out
+
     @property
     def n_inputs(self):
         e = self.inputs_expr
